@@ -12,7 +12,10 @@ ALLOWED_AXIOMS = {"propext", "Quot.sound", "Classical.choice"}
 COMMON_TRUSTED = [
     "Lean 4.33.0 kernel (axioms allowed: propext, Quot.sound, Classical.choice)",
     "hand-written Lean model; tied to /repo by the differential correspondence run (finite)",
-    "Go harness + line protocol + Lean driver (compiled with leanc)",
+    "Go harness + line protocol + Lean driver (compiled with leanc); the driver's oracles and replay scripts (lean/Swat4/Drv) are "
+    "not covered by theorems: a wrong oracle can make a check too quiet or too loud, never a theorem false (DESIGN.md section 8)",
+    "the fact extractors harness/internal/facts/*.go (reflection + go/ast over /repo's current source; they exit non-zero when an "
+    "anchor file or function is gone) are trusted to print what they read; the facts_* theorems pin what was printed",
 ]
 
 
